@@ -1,6 +1,500 @@
 import PyCliffordModel.Proofs.Z2Inv
+import PyCliffordModel.Proofs.Rotate
 import PyCliffordModel.Spec.Rank
-/-! # Proofs/RankLemmas — `z2rank` computes the GF(2) rank (kernel counting through the elimination) -/
-namespace PC
+/-! # Proofs/RankLemmas — `z2rank` computes the GF(2) rank (kernel counting through the elimination)
 
+Layout:
+* §1 `allBits m` is a duplicate-free complete enumeration of the bit lists of length `m`; counting `cnt`;
+     an involution of the length-`m` lists does not change a count (`cnt_invol`);
+* §2 the kernel predicate at function level (`kerB`), the bridge from `kernelCount`, and its invariance under an
+     involutive row operation (`cnt_rowop`: `c ↦ c·E` is the bijection between the two kernels);
+* §3 the loop invariant `RInv` of `z2rankAux` (pivot columns recorded, zeros below them, rows `≥ r` zero on the
+     columns already passed), preserved by the three branches;
+* §4 the kernel of an echelon matrix (`cnt_final`), the loop theorem, bounds on the result.
+-/
+namespace PC
+namespace Rank
+open Z2
+
+/-! ## §1 `allBits` -/
+
+theorem length_allBits (m : Nat) : (allBits m).length = 2 ^ m := by
+  induction m with
+  | zero => rfl
+  | succ m ih => simp only [allBits, List.length_append, List.length_map, ih, Nat.pow_succ]; omega
+
+theorem mem_allBits (m : Nat) (c : List Bool) : c ∈ allBits m ↔ c.length = m := by
+  induction m generalizing c with
+  | zero => simp [allBits]
+  | succ m ih =>
+    simp only [allBits, List.mem_append, List.mem_map]
+    constructor
+    · rintro (⟨d, hd, rfl⟩ | ⟨d, hd, rfl⟩) <;> simp [(ih d).mp hd]
+    · intro h
+      cases c with
+      | nil => simp at h
+      | cons b t =>
+        have ht : t ∈ allBits m := (ih t).mpr (by simpa using h)
+        cases b
+        · exact Or.inl ⟨t, ht, rfl⟩
+        · exact Or.inr ⟨t, ht, rfl⟩
+
+theorem nodup_allBits (m : Nat) : (allBits m).Nodup := by
+  induction m with
+  | zero => simp [allBits]
+  | succ m ih =>
+    simp only [allBits]
+    rw [List.nodup_append]
+    refine ⟨?_, ?_, ?_⟩
+    · exact List.pairwise_map.mpr (ih.imp (fun h e => h (by simpa using e)))
+    · exact List.pairwise_map.mpr (ih.imp (fun h e => h (by simpa using e)))
+    · intro a ha b hb e
+      simp only [List.mem_map] at ha hb
+      obtain ⟨x, _, rfl⟩ := ha
+      obtain ⟨y, _, rfl⟩ := hb
+      simp at e
+
+/-- an involution of the length-`m` bit lists permutes `allBits m` -/
+theorem map_perm_allBits (m : Nat) (f : List Bool → List Bool)
+    (hlen : ∀ c, c.length = m → (f c).length = m)
+    (hinv : ∀ c, c.length = m → f (f c) = c) : ((allBits m).map f).Perm (allBits m) := by
+  apply (List.perm_ext_iff_of_nodup ?_ (nodup_allBits m)).mpr
+  · intro c
+    simp only [List.mem_map, mem_allBits]
+    constructor
+    · rintro ⟨d, hd, rfl⟩; exact hlen d hd
+    · intro hc; exact ⟨f c, hlen c hc, hinv c hc⟩
+  · rw [List.Nodup, List.pairwise_map]
+    refine (nodup_allBits m).imp_of_mem ?_
+    intro a b ha hb hne e
+    apply hne
+    rw [← hinv a ((mem_allBits m a).mp ha), ← hinv b ((mem_allBits m b).mp hb), e]
+
+/-- number of length-`m` bit lists satisfying `p` -/
+def cnt (m : Nat) (p : List Bool → Bool) : Nat := ((allBits m).filter p).length
+
+theorem cnt_congr (m : Nat) (p q : List Bool → Bool) (h : ∀ c, c.length = m → p c = q c) : cnt m p = cnt m q := by
+  unfold cnt
+  rw [List.filter_congr (fun c hc => h c ((mem_allBits m c).mp hc))]
+
+theorem cnt_invol (m : Nat) (p : List Bool → Bool) (f : List Bool → List Bool)
+    (hlen : ∀ c, c.length = m → (f c).length = m)
+    (hinv : ∀ c, c.length = m → f (f c) = c) : cnt m (p ∘ f) = cnt m p := by
+  unfold cnt
+  have := ((map_perm_allBits m f hlen hinv).filter p).length_eq
+  rw [List.filter_map, List.length_map] at this
+  exact this
+
+/-- the first `r` entries vanish -/
+def leadZero (r : Nat) (c : List Bool) : Bool := (c.take r).all (· == false)
+
+theorem leadZero_iff (r : Nat) (c : List Bool) :
+    leadZero r c = true ↔ ∀ j, j < r → c.getD j false = false := by
+  induction r generalizing c with
+  | zero => simp [leadZero]
+  | succ r ih =>
+    cases c with
+    | nil => simp [leadZero]
+    | cons b t =>
+      have : leadZero (r + 1) (b :: t) = ((b == false) && leadZero r t) := by simp [leadZero]
+      rw [this, Bool.and_eq_true, ih]
+      constructor
+      · rintro ⟨hb, ht⟩ j hj
+        cases j with
+        | zero => simpa using hb
+        | succ j => simpa using ht j (by omega)
+      · intro h
+        exact ⟨by simpa using h 0 (by omega), fun j hj => by simpa using h (j + 1) (by omega)⟩
+
+theorem cnt_leadZero (r m : Nat) (h : r ≤ m) : cnt m (leadZero r) = 2 ^ (m - r) := by
+  induction r generalizing m with
+  | zero =>
+    have : leadZero 0 = fun _ => true := by funext c; simp [leadZero]
+    unfold cnt
+    rw [this, List.filter_eq_self.mpr (fun _ _ => rfl), length_allBits]; rfl
+  | succ r ih =>
+    cases m with
+    | zero => omega
+    | succ m =>
+      have e1 : (leadZero (r + 1) ∘ fun x => false :: x) = leadZero r := by funext c; simp [leadZero]
+      have e2 : (leadZero (r + 1) ∘ fun x => true :: x) = fun _ => false := by funext c; simp [leadZero]
+      have := ih m (by omega)
+      unfold cnt at this ⊢
+      simp only [allBits, List.filter_append, List.filter_map, List.length_append, List.length_map, e1, e2, this]
+      simp
+
+/-! ## §2 the kernel predicate -/
+
+/-- a bit list as a matrix all of whose rows are the list -/
+def cvec (c : List Bool) : Mat := fun _ k => c.getD k false
+
+/-- `c·a = 0` on the columns `< nc`, for `m` rows -/
+def kerB (m nc : Nat) (a : Mat) (c : List Bool) : Bool :=
+  (List.range nc).all fun j => mmul m (cvec c) a 0 j == false
+
+theorem kerB_iff (m nc : Nat) (a : Mat) (c : List Bool) :
+    kerB m nc a c = true ↔ ∀ j, j < nc → mmul m (cvec c) a 0 j = false := by
+  simp [kerB]
+
+theorem kernelCount_eq (A : BMat) (nc : Nat) : kernelCount A nc = cnt A.length (kerB A.length nc A.get) := by
+  unfold kernelCount cnt
+  congr 1
+  apply List.filter_congr
+  intro c hc
+  have hl := (mem_allBits _ _).mp hc
+  simp only [isZeroVec, vecMat, kerB, List.all_map]
+  congr 1
+  funext j
+  simp only [Function.comp]
+  rw [dotB_eq_xsum c (colB A j) A.length (by omega)]
+  simp only [mmul, cvec, getD_colB]
+
+/-- `c·E` as a list of length `m` -/
+def vmul (m : Nat) (E : Mat) (c : List Bool) : List Bool := (List.range m).map fun l => mmul m (cvec c) E 0 l
+
+theorem length_vmul (m : Nat) (E : Mat) (c : List Bool) : (vmul m E c).length = m := by simp [vmul]
+
+theorem cvec_vmul (m : Nat) (E : Mat) (c : List Bool) (r l : Nat) (hl : l < m) :
+    cvec (vmul m E c) r l = mmul m (cvec c) E 0 l := by
+  simp only [cvec, vmul, List.getD_eq_getElem?_getD, List.getElem?_map, List.getElem?_range hl, Option.map_some,
+    Option.getD_some]
+
+theorem kerB_rowop (m nc : Nat) (a a' E : Mat) (h : ∀ r, r < m → ∀ c, a' r c = mmul m E a r c) (c : List Bool) :
+    kerB m nc a' c = kerB m nc a (vmul m E c) := by
+  unfold kerB
+  congr 1
+  funext j
+  congr 1
+  rw [mmul_congr_right m _ a' (mmul m E a) 0 j (fun k hk => h k hk j), ← mmul_assoc]
+  apply mmul_congr_left
+  intro k hk
+  rw [cvec_vmul m E c 0 k hk]
+
+theorem vmul_invol (m : Nat) (E : Mat) (hE : ∀ r, r < m → ∀ c, c < m → mmul m E E r c = ident r c)
+    (c : List Bool) (hc : c.length = m) : vmul m E (vmul m E c) = c := by
+  apply List.ext_getElem (by rw [length_vmul, hc])
+  intro l h1 h2
+  have hl : l < m := by rw [← hc]; exact h2
+  have e1 : (vmul m E (vmul m E c))[l] = mmul m (cvec (vmul m E c)) E 0 l := by
+    simp only [vmul, List.getElem_map, List.getElem_range]
+  rw [e1, mmul_congr_left m _ (mmul m (cvec c) E) E 0 l (fun k hk => cvec_vmul m E c 0 k hk), mmul_assoc,
+    mmul_congr_right m _ _ ident 0 l (fun k hk => hE k hk l hl), mmul_ident_right m _ 0 l hl]
+  simp [cvec, List.getD_eq_getElem?_getD, List.getElem?_eq_getElem h2]
+
+/-- an involutive row operation does not change the number of vanishing row combinations -/
+theorem cnt_rowop (m nc : Nat) (a a' E : Mat)
+    (hE : ∀ r, r < m → ∀ c, c < m → mmul m E E r c = ident r c)
+    (h : ∀ r, r < m → ∀ c, a' r c = mmul m E a r c) : cnt m (kerB m nc a') = cnt m (kerB m nc a) := by
+  have : kerB m nc a' = kerB m nc a ∘ vmul m E := funext (kerB_rowop m nc a a' E h)
+  rw [this]
+  exact cnt_invol m _ _ (fun c _ => length_vmul m E c) (vmul_invol m E hE)
+
+/-! ## §3 the loop invariant of `z2rankAux` -/
+
+/-- at column `i` with `r` pivots found: every row `j < r` has a recorded pivot column `p < i` holding `1` with
+    zeros below it, and the rows `≥ r` vanish on the columns `< i` -/
+structure RInv (m nc i r : Nat) (a : BMat) : Prop where
+  shape : Shape a m nc
+  rle : r ≤ m
+  piv : ∀ j, j < r → ∃ p, p < i ∧ a.get j p = true ∧ ∀ j', j < j' → j' < m → a.get j' p = false
+  zero : ∀ j, r ≤ j → j < m → ∀ c, c < i → a.get j c = false
+
+theorem shape_of_isMat (A : BMat) (nr nc : Nat) (h : IsMat A nr nc) : Shape A nr nc := by
+  refine ⟨h.1, fun j hj => ?_⟩
+  have hj' : j < A.length := by rw [h.1]; exact hj
+  have : A.getD j [] = A[j] := by simp [List.getD_eq_getElem?_getD, List.getElem?_eq_getElem hj']
+  rw [this]; exact h.2 _ (List.getElem_mem hj')
+
+theorem rinv_init (A : BMat) (nr nc : Nat) (h : IsMat A nr nc) : RInv nr nc 0 0 A :=
+  ⟨shape_of_isMat A nr nc h, Nat.zero_le _, fun j hj => by omega, fun j _ _ c hc => by omega⟩
+
+theorem rank_elim_step (m nc i r : Nat) (a : BMat) (hr : r < m) (h : RInv m nc i r a) (hd : a.get r i = true) :
+    RInv m nc (i + 1) (r + 1) (elimBelow i r a) ∧
+      cnt m (kerB m nc (elimBelow i r a).get) = cnt m (kerB m nc a.get) := by
+  have hrow : (a.getD r []).length = nc := h.shape.2 r hr
+  have pm : ∀ c, c < i → a.get r c = false := fun c hc => h.zero r (Nat.le_refl _) hr c hc
+  have full : ∀ j c, (elimBelow i r a).get j c = (a.get j c != ((decide (r < j) && a.get j i) && a.get r c)) := by
+    intro j c
+    rw [elimBelow_eq, get_elimP _ _ _ _ m nc h.shape hrow]
+    show (a.get j c != (decide (r < j) && a.get j i && decide (i ≤ c) && a.get r c)) = _
+    by_cases hc : i ≤ c
+    · simp [hc]
+    · rw [pm c (by omega)]; simp
+  refine ⟨⟨?_, by omega, ?_, ?_⟩, ?_⟩
+  · rw [elimBelow_eq]; exact shape_elimP _ _ _ _ m nc h.shape hrow
+  · intro j hj
+    by_cases e : j = r
+    · subst e
+      refine ⟨i, by omega, ?_, ?_⟩
+      · rw [full]; simp [hd]
+      · intro j' h1 h2
+        rw [full, hd]
+        have : decide (j < j') = true := by simpa using h1
+        rw [this]; cases a.get j' i <;> rfl
+    · obtain ⟨p, hp, h1, h2⟩ := h.piv j (by omega)
+      refine ⟨p, by omega, ?_, ?_⟩
+      · rw [full]
+        have : decide (r < j) = false := by simp; omega
+        rw [this, h1]; rfl
+      · intro j' h3 h4
+        rw [full, h2 j' h3 h4, h2 r (by omega) hr]; simp
+  · intro j hj1 hj2 c hc
+    rw [full]
+    by_cases e : c = i
+    · subst e
+      have : decide (r < j) = true := by simp; omega
+      rw [this, hd]; cases a.get j c <;> rfl
+    · rw [h.zero j (by omega) hj2 c (by omega), pm c (by omega)]; simp
+  · apply cnt_rowop m nc a.get _ (addE (fun j => decide (r < j) && a.get j i) r)
+      (fun x hx c _ => addE_invol m _ r hr (by simp) x c hx)
+    intro x hx c
+    rw [full, mmul_addE m _ r _ x c hx hr]
+
+theorem rank_swap_step (m nc i r k : Nat) (a : BMat) (hrk : r < k) (hk : k < m) (h : RInv m nc i r a) :
+    RInv m nc i r (swapFrom i r k a) ∧
+      cnt m (kerB m nc (swapFrom i r k a).get) = cnt m (kerB m nc a.get) ∧
+      (swapFrom i r k a).get r i = a.get k i := by
+  have hr : r < m := by omega
+  have pm : ∀ c, c < i → a.get r c = false := fun c hc => h.zero r (Nat.le_refl _) hr c hc
+  have pk : ∀ c, c < i → a.get k c = false := fun c hc => h.zero k (by omega) hk c hc
+  have full : ∀ j c, (swapFrom i r k a).get j c = a.get (swapσ r k j) c := by
+    intro j c
+    rw [get_swapFrom i r k a m nc h.shape hr hk]
+    unfold swapσ
+    by_cases hc : i ≤ c
+    · simp only [hc, if_true]
+      split
+      · rfl
+      · split <;> rfl
+    · simp only [hc, if_false]
+      split
+      · next e => rw [e, pm c (by omega), pk c (by omega)]
+      · split
+        · next e => rw [e, pm c (by omega), pk c (by omega)]
+        · rfl
+  refine ⟨⟨?_, h.rle, ?_, ?_⟩, ?_, ?_⟩
+  · exact shape_swapFrom i r k a m nc h.shape hr hk
+  · intro j hj
+    obtain ⟨p, hp, h1, h2⟩ := h.piv j hj
+    refine ⟨p, hp, ?_, ?_⟩
+    · rw [full]
+      have : swapσ r k j = j := by unfold swapσ; rw [if_neg (by omega), if_neg (by omega)]
+      rw [this]; exact h1
+    · intro j' h3 h4
+      rw [full]
+      unfold swapσ; split
+      · exact h2 r (by omega) hr
+      · split
+        · exact h2 k (by omega) hk
+        · exact h2 j' h3 h4
+  · intro j hj1 hj2 c hc
+    rw [full]
+    unfold swapσ; split
+    · exact pm c hc
+    · split
+      · exact pk c hc
+      · exact h.zero j hj1 hj2 c hc
+  · apply cnt_rowop m nc a.get _ (swapE r k) (fun x hx c _ => swapE_invol m r k hr hk x c hx)
+    intro x hx c
+    rw [full, mmul_swapE m r k _ x c hr hk hx]
+  · rw [full]
+    have : swapσ r k r = k := by unfold swapσ; rw [if_neg (by omega), if_pos rfl]
+    rw [this]
+
+theorem rank_skip_step (m nc i r : Nat) (a : BMat) (h : RInv m nc i r a)
+    (hz : ∀ j, r ≤ j → j < m → a.get j i = false) : RInv m nc (i + 1) r a := by
+  refine ⟨h.shape, h.rle, ?_, ?_⟩
+  · intro j hj
+    obtain ⟨p, hp, h1, h2⟩ := h.piv j hj
+    exact ⟨p, by omega, h1, h2⟩
+  · intro j hj1 hj2 c hc
+    by_cases e : c = i
+    · subst e; exact hz j hj1 hj2
+    · exact h.zero j hj1 hj2 c (by omega)
+
+/-! ## §4 the kernel of an echelon matrix; the loop -/
+
+theorem cnt_final (m nc i r : Nat) (a : BMat) (h : RInv m nc i r a) (hi : i ≤ nc)
+    (hz : ∀ j, r ≤ j → j < m → ∀ c, c < nc → a.get j c = false) :
+    cnt m (kerB m nc a.get) = 2 ^ (m - r) := by
+  rw [← cnt_leadZero r m h.rle]
+  apply cnt_congr
+  intro c _
+  rw [Bool.eq_iff_iff, kerB_iff, leadZero_iff]
+  constructor
+  · intro hk j
+    induction j using Nat.strongRecOn with
+    | _ j ih =>
+      intro hj
+      obtain ⟨p, hp, h1, h2⟩ := h.piv j hj
+      have hm := h.rle
+      have := hk p (by omega)
+      simp only [mmul] at this
+      rw [xsum_single _ j m (by omega) (fun k hk' hne => by
+        by_cases hkj : k < j
+        · simp only [cvec]; rw [ih k hkj (by omega)]; rfl
+        · rw [h2 k (by omega) hk']; simp)] at this
+      simpa [cvec, h1] using this
+  · intro hz' j hj
+    simp only [mmul]
+    apply xsum_false
+    intro k hk
+    by_cases hkr : k < r
+    · simp only [cvec]; rw [hz' k hkr]; rfl
+    · rw [hz k (by omega) hk j hj]; simp
+
+theorem rank_loop (m nc : Nat) (fuel : Nat) : ∀ (i r : Nat) (a : BMat), i + fuel = nc → RInv m nc i r a →
+    cnt m (kerB m nc a.get) = 2 ^ (m - z2rankAux m fuel i r a) := by
+  induction fuel with
+  | zero =>
+    intro i r a hi h
+    simp only [z2rankAux]
+    exact cnt_final m nc i r a h (by omega) (fun j h1 h2 c hc => h.zero j h1 h2 c (by omega))
+  | succ fuel ih =>
+    intro i r a hi h
+    by_cases hrm : r = m
+    · have e0 : z2rankAux m (fuel + 1) i r a = r := by simp only [z2rankAux, hrm, if_true]
+      rw [e0]
+      exact cnt_final m nc i r a h (by omega) (fun j h1 h2 c hc => by omega)
+    · have hr : r < m := by have := h.rle; omega
+      by_cases hd : a.get r i = true
+      · have st := rank_elim_step m nc i r a hr h hd
+        have e0 : z2rankAux m (fuel + 1) i r a = z2rankAux m fuel (i + 1) (r + 1) (elimBelow i r a) := by
+          simp only [z2rankAux, hrm, hd, if_true, if_false]
+        rw [e0, ← st.2]
+        exact ih _ _ _ (by omega) st.1
+      · cases hf : findPivot a i (r + 1) (m - (r + 1)) with
+        | none =>
+          have e0 : z2rankAux m (fuel + 1) i r a = z2rankAux m fuel (i + 1) r a := by
+            simp only [z2rankAux, hrm, hd, hf, if_false]; rfl
+          rw [e0]
+          refine ih _ _ _ (by omega) (rank_skip_step m nc i r a h (fun j h1 h2 => ?_))
+          by_cases e : j = r
+          · subst e; simpa using hd
+          · exact findPivot_none a i (r + 1) _ hf j (by omega) (by omega)
+        | some k =>
+          have e0 : z2rankAux m (fuel + 1) i r a =
+              z2rankAux m fuel (i + 1) (r + 1) (elimBelow i r (swapFrom i r k a)) := by
+            simp only [z2rankAux, hrm, hd, hf, if_false]; rfl
+          rw [e0]
+          have hk := findPivot_some a i (r + 1) _ k hf
+          have s1 := rank_swap_step m nc i r k a (by omega) (by omega) h
+          have st := rank_elim_step m nc i r _ hr s1.1 (by rw [s1.2.2]; exact hk.2.2)
+          rw [← s1.2.1, ← st.2]
+          exact ih _ _ _ (by omega) st.1
+
+/-- the rank grows by at most one per column -/
+theorem z2rankAux_le_add (nr fuel : Nat) : ∀ (i r : Nat) (a : BMat), z2rankAux nr fuel i r a ≤ r + fuel := by
+  induction fuel with
+  | zero => intro i r a; simp [z2rankAux]
+  | succ fuel ih =>
+    intro i r a
+    simp only [z2rankAux]
+    split
+    · omega
+    · split
+      · have := ih (i + 1) (r + 1) (elimBelow i r a); omega
+      · split
+        · next k _ => have := ih (i + 1) (r + 1) (elimBelow i r (swapFrom i r k a)); omega
+        · have := ih (i + 1) r a; omega
+
+/-- the rank never exceeds the number of rows -/
+theorem z2rankAux_le_rows (nr fuel : Nat) : ∀ (i r : Nat) (a : BMat), r ≤ nr → z2rankAux nr fuel i r a ≤ nr := by
+  induction fuel with
+  | zero => intro i r a h; simpa [z2rankAux] using h
+  | succ fuel ih =>
+    intro i r a h
+    simp only [z2rankAux]
+    split
+    · omega
+    · split
+      · exact ih (i + 1) (r + 1) _ (by omega)
+      · split
+        · exact ih (i + 1) (r + 1) _ (by omega)
+        · exact ih (i + 1) r a h
+
+theorem z2rank_kernel (A : BMat) (nr nc : Nat) (hA : IsMat A nr nc) :
+    z2rank A nc ≤ nr ∧ kernelCount A nc = 2 ^ (nr - z2rank A nc) := by
+  have hl : A.length = nr := hA.1
+  refine ⟨?_, ?_⟩
+  · unfold z2rank; rw [hl]; exact z2rankAux_le_rows nr nc 0 0 A (Nat.zero_le _)
+  · rw [kernelCount_eq]
+    unfold z2rank
+    rw [hl]
+    exact rank_loop nr nc nc 0 0 A (by omega) (rinv_init A nr nc hA)
+
+theorem z2rank_le_cols (A : BMat) (nc : Nat) : z2rank A nc ≤ nc := by
+  unfold z2rank
+  have := z2rankAux_le_add A.length nc 0 0 A
+  omega
+
+/-! ## small facts for the entropy statements -/
+
+theorem length_flat' (g : PStr) : (flat g).length = 2 * g.length := by
+  induction g with
+  | nil => rfl
+  | cons q qs ih => simp only [flat, List.length_cons, ih]; omega
+
+theorem gather_replicate_false (n : Nat) (g : PStr) : gather (List.replicate n false) g = [] := by
+  induction n generalizing g with
+  | zero => exact gather_nil_left g
+  | succ n ih =>
+    cases g with
+    | nil => exact gather_nil_right _
+    | cons q qs => rw [List.replicate_succ, gather_cons_false, ih]
+
+theorem maskCount_replicate_false (n : Nat) : maskCount (List.replicate n false) = 0 := by
+  induction n with
+  | zero => rfl
+  | succ n ih => rw [List.replicate_succ, maskCount_cons_false, ih]
+
+theorem maskCount_replicate_true (n : Nat) : maskCount (List.replicate n true) = n := by
+  induction n with
+  | zero => rfl
+  | succ n ih => rw [List.replicate_succ, maskCount_cons_true, ih]
+
+theorem foldl_max_lt (l : List Int) (x N : Int) (hx : x < N) (hl : ∀ y ∈ l, y < N) : l.foldl max x < N := by
+  induction l generalizing x with
+  | nil => simpa using hx
+  | cons y ys ih =>
+    simp only [List.foldl_cons]
+    apply ih
+    · have := hl y (by simp); omega
+    · intro z hz; exact hl z (by simp [hz])
+
+/-- `utils.mask` on a non-empty list of in-range natural indices -/
+theorem mkMask_ofNat (qs : List Nat) (n : Nat) (h0 : qs ≠ []) (hq : ∀ q ∈ qs, q < n) :
+    mkMask (qs.map Int.ofNat) n = .ok ((List.range n).map fun i => qs.contains i) := by
+  cases qs with
+  | nil => exact absurd rfl h0
+  | cons q0 rest =>
+    have hmax : ¬ ((rest.map Int.ofNat).foldl max (Int.ofNat q0) ≥ (n : Int)) := by
+      have := foldl_max_lt (rest.map Int.ofNat) (Int.ofNat q0) n
+        (by have := hq q0 (by simp); simp; omega)
+        (by
+          intro y hy
+          obtain ⟨q, hq', rfl⟩ := List.mem_map.mp hy
+          have := hq q (by simp [hq']); simp; omega)
+      omega
+    have hneg : ((q0 :: rest).map Int.ofNat).any (· < -(n : Int)) = false := by
+      rw [List.any_eq_false]
+      intro y hy
+      obtain ⟨q, _, rfl⟩ := List.mem_map.mp hy
+      simp
+    have hidx : ((q0 :: rest).map Int.ofNat).map
+        (fun q => Int.toNat (if q < 0 then q + (n : Int) else q)) = q0 :: rest := by
+      rw [List.map_map]
+      conv => rhs; rw [← List.map_id (q0 :: rest)]
+      apply List.map_congr_left
+      intro q _
+      have : ¬ ((Int.ofNat q) < 0) := by simp
+      simp only [Function.comp, if_neg this, id]
+      rfl
+    have e : (q0 :: rest).map Int.ofNat = Int.ofNat q0 :: rest.map Int.ofNat := rfl
+    unfold mkMask
+    rw [e] at hneg hidx ⊢
+    simp only [if_neg hmax, hneg, hidx]
+    rfl
+
+end Rank
 end PC
